@@ -313,7 +313,7 @@ func runC18(c *Ctx) {
 	if !RaceBuilt {
 		c.Inconclusive("the checking binary was not built with -race: only output equality is decided")
 	}
-	rounds := c.N(6, 120)
+	rounds := c.N(6, 40)
 	var clock int64
 	overlaps, ops := int64(0), int64(0)
 	orderings := map[string]bool{}
@@ -326,7 +326,7 @@ func runC18(c *Ctx) {
 		old := runtime.GOMAXPROCS(procs)
 		r := rand.New(rand.NewSource(c.Seed*18_000_041 + int64(round)))
 		w := newWorld(round, r)
-		perG := c.N(120, 300)
+		perG := c.N(120, 200)
 		// plan: (goroutine, step) -> (op, seed)
 		type step struct {
 			op   int
